@@ -80,7 +80,7 @@ Qed.
 Lemma queues_ok_step cf st e : queues_ok st -> queues_ok (fst (step cf st e)).
 Proof.
   intros Hq. unfold step. destruct (negb (wf_event st e)); [exact Hq|].
-  destruct e as [fds|c m|c|d|c s n al rp dq|c s n|c s rl|c|c]; cbn [fst]; try exact Hq.
+  destruct e as [fds|c m|c|d|c s n al rp dq|c s n|c s rl|c|c|c]; cbn [fst]; try exact Hq.
   - destruct (dispatch cf st c m) as [st' o] eqn:D. destruct (dispatch_frame _ _ _ _ _ _ D) as (_ & _ & E & _). cbn [fst].
     unfold queues_ok. rewrite E. exact Hq.
   - unfold disconnect. destruct (expire_pass cf (st_now st) (drop_pending (st_pend st) c)) as [pl oo]. cbn [fst]. intros n q H. eapply names_drop_nonempty; eauto.
@@ -192,7 +192,7 @@ Proof.
   intros (K & L & Q). split; [|split; [|apply queues_ok_step; exact Q]].
   - (* held_dest *)
     unfold step. destruct (negb (wf_event st e)); [exact K|].
-    destruct e as [fds|c m|c|d|c s n al rp dq|c s n|c s rl|c|c]; cbn [fst]; try exact K.
+    destruct e as [fds|c m|c|d|c s n al rp dq|c s n|c s rl|c|c|c]; cbn [fst]; try exact K.
     + unfold dispatch. destruct (resolve st (m_dest m)) as [r|].
       * destruct (deliver_frame cf st c r m) as [_ F]. unfold held_dest. rewrite F. exact K.
       * unfold no_owner. destruct (m_dest m) as [u|n] eqn:Ed; [exact K|]. destruct (negb (m_noauto m) && activatable n); [|exact K].
@@ -212,7 +212,7 @@ Proof.
     + destruct (release (st_names st) c n). exact K.
   - (* held_unowned *)
     unfold step. destruct (negb (wf_event st e)); [exact L|].
-    destruct e as [fds|c m|c|d|c s n al rp dq|c s n|c s rl|c|c]; cbn [fst]; try exact L.
+    destruct e as [fds|c m|c|d|c s n al rp dq|c s n|c s rl|c|c|c]; cbn [fst]; try exact L.
     + unfold dispatch. destruct (resolve st (m_dest m)) as [r|] eqn:R.
       * destruct (deliver_frame cf st c r m) as [(_ & _ & Fn & _) F]. unfold held_unowned. rewrite F, Fn. exact L.
       * unfold no_owner. destruct (m_dest m) as [u|n] eqn:Ed; [exact L|]. destruct (negb (m_noauto m) && activatable n); [|exact L].
@@ -285,7 +285,7 @@ Proof.
                   Sub (arrived tr a d b ++ arrivals_in o a d b ++ held_msgs st' a d) (written tr a d ++ wrote e a d)).
   { intros st' o Ha Hs. rewrite Ha. simpl. apply Sub_app_r. eapply Sub_trans; [|exact IH]. apply Sub_app; [apply Sub_refl|exact Hs]. }
   unfold step. destruct (negb (wf_event st e)) eqn:W; [apply Quiet; [reflexivity|apply Sub_refl]|].
-  destruct e as [fds|c m|c|dd|c s n al rp dq|c s n|c s rl|c|c]; cbn [fst snd]; try (apply Quiet; [reflexivity|apply Sub_refl]).
+  destruct e as [fds|c m|c|dd|c s n al rp dq|c s n|c s rl|c|c|c]; cbn [fst snd]; try (apply Quiet; [reflexivity|apply Sub_refl]).
   - (* send *)
     unfold dispatch. destruct (resolve st (m_dest m)) as [r|] eqn:R.
     + pose proof (deliver_arrivals cf st c r m a d b) as D. destruct (deliver_frame cf st c r m) as [_ F].
